@@ -311,10 +311,11 @@ def regex_oracle():
     return _regex_exe
 
 
-def regex_eval(queries):
-    """queries: list of (icase, pattern bytes, subject bytes) -> list of None | [(so, eo), ...] | 'E'"""
+def regex_eval(queries, loc=None):
+    """queries: list of (icase, pattern bytes, subject bytes) -> list of None | [(so, eo), ...] | 'E'
+    loc: the LC_CTYPE the oracle runs under (default: the C locale)"""
     lines = ['rx %d %s %s' % (1 if ic else 0, hexs(p), hexs(s)) for ic, p, s in queries]
-    out, _ = run_lines(regex_oracle(), lines)
+    out, _ = run_lines(regex_oracle(), lines, env=({'VERIF_RX_LOCALE': loc} if loc and loc != 'C' else None))
     res = []
     for o in out:
         if o == 'N':
